@@ -231,8 +231,9 @@ func GenerateRoutes(
 	logger.Debug("Formatting %d bytes of output code", len(result))
 	formattedOutput, err := compilation.OptimizeImportsAndFormat(result)
 	if err != nil {
-		logger.Warn("Could not format output - %v", err)
-		formattedOutput = result
+		// Text that does not even parse cannot be compiled either; refuse instead of writing it
+		logger.Error("Could not format output - %v", err)
+		return fmt.Errorf("generated routes are not valid Go and were not written - %w", err)
 	}
 
 	err = os.MkdirAll(filepath.Dir(args.OutputPath), 0755)
